@@ -99,27 +99,43 @@ def gen_case(rng, nsteps, mode=None, ring=None, bias=None):
     mode = mode or rng.choice(["R", "R", "S", "S", "M"])
     ring = rng.below(2) if ring is None else ring
     nf = rng.range(2, 6)
-    fds = [100 + i for i in range(nf)]
+    # descriptor numbers: 100.. plus the stdio numbers 0,1,2 and their neighbour 3 (the harness frees them)
+    fds = [100]
+    pool_hi = [101, 102, 103, 104, 105]; pool_lo = [0, 1, 2, 3]
+    while len(fds) < nf:
+        f = rng.choice(pool_lo if rng.below(5) < 2 else pool_hi)
+        if f not in fds: fds.append(f)
     if rng.below(12) == 0: fds.append(rng.choice([120, 125]))
+    streams = rng.below(3) == 0         # stream-type handles (uv_pipe_open): monitors only, no model diff
     body = []
-    open_ = set(); nid = 0; hs = []          # hs: [fd, poll, closed]
-    def init_on(f, poll=None):
+    open_ = set(); nid = 0; hs = []          # hs: [fd, kind p/r/s, closed]
+    def init_on(f, kind=None):
         nonlocal nid
-        poll = rng.below(4) != 0 if poll is None else poll
-        body.append(f"pinit {f}" if poll else f"ioinit {f}")
-        hs.append([f, poll, False]); nid += 1
+        if kind is None:
+            r = rng.below(10)
+            kind = "s" if (streams and r < 4) else ("r" if r < 6 and not streams else ("r" if r == 9 else "p"))
+        body.append({"p": "pinit", "r": "ioinit", "s": "sinit"}[kind] + f" {f}")
+        hs.append([f, kind, False]); nid += 1
         return nid - 1
     def start(i):
-        if hs[i][1]: body.append(f"pstart {i} {rng.choice(UVMASKS[:-1])}")
-        else: body.append(f"iostart {i} {rng.choice(IOMASKS)}")
+        k = hs[i][1]
+        if k == "p": body.append(f"pstart {i} {rng.choice(UVMASKS[:-1])}")
+        elif k == "r": body.append(f"iostart {i} {rng.choice(IOMASKS)}")
+        else: body.append(f"sstart {i}")
+    def stop(i):
+        k = hs[i][1]
+        body.append(f"pstop {i}" if k == "p" else f"sstop {i}" if k == "s" else f"iostop {i} {rng.choice(IOMASKS + [ALL4, ALL4])}")
+    def close(i):
+        k = hs[i][1]
+        body.append({"p": "pclose", "r": "ioclose", "s": "sclose"}[k] + f" {i}"); hs[i][2] = True
     # the first handle always gets started so that nwatchers covers the whole range
     body.append(f"openfd 100 {rng.below(4)}"); open_.add(100)
-    init_on(100, True); body.append(f"pstart 0 {rng.choice(UVMASKS[:-1])}")
+    init_on(100, "p"); body.append(f"pstart 0 {rng.choice(UVMASKS[:-1])}")
     for f in fds[1:]:
         body.append(f"openfd {f} {rng.below(4)}"); open_.add(f)
         i = init_on(f)
         if rng.below(6) != 0: start(i)
-        if rng.below(5) == 0: body.append(f"dupfd {f}")
+        if rng.below(4) == 0: body.append(f"dupfd {f}")
     bfds = [f for f in fds if f <= 125]
     for _ in range(nsteps):
         r = rng.below(30)
@@ -130,16 +146,14 @@ def gen_case(rng, nsteps, mode=None, ring=None, bias=None):
         elif r < 9 and live:
             start(rng.choice(live))
         elif r < 11 and live:
-            i = rng.choice(live)
-            body.append(f"pstop {i}" if hs[i][1] else f"iostop {i} {rng.choice(IOMASKS + [ALL4, ALL4])}")
+            stop(rng.choice(live))
         elif r < 13 and live:
-            i = rng.choice(live)
-            body.append(f"pclose {i}" if hs[i][1] else f"ioclose {i}"); hs[i][2] = True
+            close(rng.choice(live))
         elif r < 15:
             f = rng.choice(fds)
             for i, h in enumerate(hs):
                 if h[0] == f and not h[2] and rng.below(5) != 0:
-                    body.append(f"pclose {i}" if h[1] else f"ioclose {i}"); h[2] = True
+                    close(i)
             body.append(f"closefd {f}")
             if rng.below(4) != 0:
                 body.append(f"openfd {f} {rng.below(4)}")
@@ -149,7 +163,7 @@ def gen_case(rng, nsteps, mode=None, ring=None, bias=None):
             body.append(f"dupfd {rng.choice(fds)}" if rng.below(3) else f"closedup {rng.below(3)}")
         elif r < 17 and live:
             i = rng.choice(live)
-            if not hs[i][1]: body.append(f"iofeed {i}")
+            if hs[i][1] == "r": body.append(f"iofeed {i}")
         elif r < 19 and live:
             # a call libuv itself must refuse without side effects: second uv_poll_init on a watched fd
             body.append(f"pinit {hs[rng.choice(live)][0]}")
@@ -172,7 +186,11 @@ def gen_case(rng, nsteps, mode=None, ring=None, bias=None):
         key = (rng.below(nid), rng.below(3))
         if key in seen: continue
         seen.add(key)
-        scripts.append(f"on {key[0]} {key[1]} " + " ; ".join(gen_script_ops(rng, nid, fds, mode)))
+        sops = gen_script_ops(rng, nid, fds, mode)
+        if streams and rng.below(2):
+            b = rng.below(nid + 1)
+            sops.append(rng.choice([f"sclose {b}", f"sstop {b}", f"sstart {b}", f"sclose {b}"]))
+        scripts.append(f"on {key[0]} {key[1]} " + " ; ".join(sops))
     return [f"cfg ring={ring}"] + scripts + body
 
 
@@ -191,8 +209,8 @@ def monitor(case, out):
     H = {}           # id -> dict(fd, poll, req, active, closed, linger)
     internal = None
     info = {"cbs": 0, "nontrivial": False, "shape": [], "ebadf": 0, "disarm": 0, "eexist": 0, "inval": 0,
-            "big": 0, "repoll": 0, "blocks": 0, "api_errors": 0}
-    cur_op = None; pend_new = None; op_ctl_ok = []; last_ki = None; op_failed = False
+            "big": 0, "repoll": 0, "blocks": 0, "api_errors": 0, "stream_cbs": 0, "lowfd_ops": 0}
+    cur_op = None; pend_new = None; op_ctl_ok = []; last_ki = None; op_failed = False; pend_stop = set()
     batch = None; batch_real = False; dirty = set(); expected = {}; in_run = False; run_real = False
     fed = set(); last_ready = None
     runs = [c.split()[1] for c in case if c.startswith("run")]
@@ -219,6 +237,9 @@ def monitor(case, out):
     for l in out:
         w = l.split()
         if not w: continue
+        if pend_stop and (w[0] == "cb" or (w[0] == "env" and w[1] == "pwait") or w[:2] == ["op", "run"]):
+            for i in pend_stop: H[i]["req"] = 0
+            pend_stop.clear()
         if w[0] == "cfg":
             internal = int(l.split("internal=")[1].split()[0]); continue
         if w[0] == "#ready":
@@ -238,16 +259,16 @@ def monitor(case, out):
                 end_dispatch(); in_run = True; nrun += 1
                 run_real = nrun < len(runs) and runs[nrun] == "R"
             elif w[1] == "peer": dirty.add(int(w[3]))
-            if batch is not None and w[1] in ("pstop", "pclose", "pstart", "iostop", "ioclose"):
+            if batch is not None and w[1] in ("pstop", "pclose", "pstart", "iostop", "ioclose", "sstop", "sclose"):
                 i = int(w[2])
                 if i in H and any(f == H[i]["fd"] for f, _ in batch[batch_pos[0]:]):
                     info["nontrivial"] = True
                 info["shape"].append(w[1])
             continue
         if w[0] == "new":
-            if cur_op and cur_op[0] in ("pinit", "ioinit"):
+            if cur_op and cur_op[0] in ("pinit", "ioinit", "sinit"):
                 H[int(w[1])] = {"fd": int(cur_op[1]), "poll": cur_op[0] == "pinit", "req": 0, "active": False,
-                                "closed": False, "linger": False}
+                                "closed": False, "linger": False, "stream": cur_op[0] == "sinit"}
             continue
         if w[0] == "ret" and cur_op:
             r = int(w[1]); o = cur_op[0]
@@ -256,19 +277,22 @@ def monitor(case, out):
                 if op_ctl_ok:
                     raise Bad("failed-call-modified-interest",
                               f"`{' '.join(cur_op)}` returned {r} but changed the kernel interest list: {op_ctl_ok}")
-            if o in ("pstart", "pstop", "pclose", "iostart", "iostop", "ioclose", "iofeed") and r == 0:
+            if o in ("pstart", "pstop", "pclose", "iostart", "iostop", "ioclose", "iofeed", "sstart", "sstop", "sclose") and r == 0:
                 i = int(cur_op[1]); h = H.get(i)
                 if h is None: raise Bad("harness-inconsistent", f"op on unknown id accepted: {cur_op}")
                 if o == "pstart":
                     h["req"] = int(cur_op[2]) & 15; h["active"] = h["req"] != 0; h["linger"] = False
                 elif o == "pstop": h["active"] = False; h["linger"] = False
-                elif o in ("pclose", "ioclose"): h["closed"] = True; h["active"] = False
+                elif o in ("pclose", "ioclose", "sclose"): h["closed"] = True; h["active"] = False
+                elif o == "sstart": h["req"] |= POLLIN; h["linger"] = True
+                elif o == "sstop": h["req"] &= ~POLLIN
                 elif o == "iostart": h["req"] |= int(cur_op[2]) & ALL4; h["linger"] = True
                 elif o == "iostop": h["req"] &= ~int(cur_op[2])
                 elif o == "iofeed": fed.add(i)
                 if o != "iofeed" and i in expected: expected[i] = None
             continue
         if w[0] == "env" and w[1] == "epoll_ctl":
+            if int(w[3]) < 4: info["lowfd_ops"] += 1
             if w[-1] == "0": op_ctl_ok.append(" ".join(w[2:5])); last_ki = None
             if w[2] == "DEL" and in_run and batch is not None and w[-1] == "0": info["disarm"] += 1
             if w[-1] == "-17": info["eexist"] += 1
@@ -304,6 +328,18 @@ def monitor(case, out):
                 if f in wt:
                     i, req = wt[f][0]
                     if m & req: expected[i] = m & req
+            continue
+        if w[0] == "cb" and w[1] == "read":
+            # stream-type handle (uv_pipe_open): uv__stream_io -> uv__read -> read_cb, possibly several per event
+            i = int(w[2]); h = H.get(i); info["cbs"] += 1; info["stream_cbs"] += 1
+            if h is None: raise Bad("harness-inconsistent", f"callback for unknown handle {i}")
+            if h["closed"] or not h["req"] & POLLIN:
+                raise Bad("cb-after-stop", f"read callback `{l}` for stream {i} after uv_read_stop/uv_close returned")
+            if batch is None or not any(f == h["fd"] and m & (POLLIN | POLLERR | POLLHUP) for f, m in batch):
+                raise Bad("cb-without-readiness", f"read callback `{l}`: the batch had nothing for fd {h['fd']}")
+            if int(w[3]) == -4095: h["req"] = 0      # UV_EOF: libuv stopped reading before the callback
+            elif int(w[3]) < 0: pend_stop.add(i)     # read error: libuv stops reading after the callback returns
+            if i in expected: expected[i] = None
             continue
         if w[0] == "cb" and w[1] in ("poll", "io"):
             i = int(w[2]); h = H.get(i); info["cbs"] += 1
@@ -363,7 +399,8 @@ def monitor(case, out):
             if batch is None or True:
                 nf = int(kv["nfds"])
                 exp = (internal or 0) + len(watched())
-                if nf != exp:
+                alt = exp - sum(1 for i in pend_stop if H[i]["req"] and not H[i]["closed"])
+                if nf != exp and nf != alt:
                     raise Bad("nfds-mismatch", f"loop->nfds={nf} but {len(watched())} descriptors are watched (+{internal} internal)")
             q = [x for x in kv["wq"].split(",") if x]
             if len(q) != len(set(q)): raise Bad("wq-dup", f"watcher_queue holds a watcher twice: {q}")
@@ -422,13 +459,17 @@ def shrink(ctx, exe, case, sig):
 def run_cases(ctx, exe, cases, label):
     with ThreadPoolExecutor(NCPU) as ex:
         res = list(ex.map(lambda c: check_case(ctx, exe, c), cases))
-    mtext = "".join("\n".join(model_input(c, il)) + "\n" for c, (r, il) in zip(cases, res))
-    ml = ctx.driver(["iowatch"], mtext).splitlines()
-    chunks, cur = [], None
+    def has_stream(c):
+        return any(x in l for l in c for x in ("sinit ", "sstart ", "sstop ", "sclose "))
+    diffable = [k for k, c in enumerate(cases) if not has_stream(c)]
+    mtext = "".join("\n".join(model_input(cases[k], res[k][1])) + "\n" for k in diffable)
+    ml = ctx.driver(["iowatch"], mtext).splitlines() if diffable else []
+    chunks0, cur = [], None
     for l in ml:
         if l.startswith("cfg "):
-            cur = []; chunks.append(cur)
+            cur = []; chunks0.append(cur)
         if cur is not None: cur.append(l)
+    chunks = {k: (chunks0[j] if j < len(chunks0) else []) for j, k in enumerate(diffable)}
     hist = ctx.notes.setdefault("hist", {})
     for idx, (c, (r, il)) in enumerate(zip(cases, res)):
         ctx.count()
@@ -440,7 +481,8 @@ def run_cases(ctx, exe, cases, label):
                 if ctx.violation(r.sig, f"C14 ({label}): {r.what}", {"ops": small}):
                     return False
         iv = [l for l in il if not l.startswith("#")]
-        mv = chunks[idx] if idx < len(chunks) else []
+        mv = chunks.get(idx, iv)
+        if idx not in chunks: hist["monitor_only_stream_cases"] = hist.get("monitor_only_stream_cases", 0) + 1
         if iv != mv:
             k = next((i for i in range(min(len(iv), len(mv))) if iv[i] != mv[i]), min(len(iv), len(mv)))
             ctx.broken_correspondence("io watcher model vs src/unix/{core,linux,poll}.c",
@@ -452,7 +494,7 @@ def run_cases(ctx, exe, cases, label):
         if not isinstance(r, Bad):
             if r["nontrivial"]:
                 ctx.nontrivial(hashlib.sha1(("|".join(r["shape"]) + "#" + "|".join(l for l in iv if l.startswith("env poll"))).encode()).hexdigest()[:12])
-            for k in ("cbs", "ebadf", "disarm", "eexist", "big", "blocks", "api_errors"):
+            for k in ("cbs", "ebadf", "disarm", "eexist", "big", "blocks", "api_errors", "stream_cbs", "lowfd_ops"):
                 hist[k] = hist.get(k, 0) + r[k]
             hist["cases_ring" + c[0][-1]] = hist.get("cases_ring" + c[0][-1], 0) + 1
             hist["refused"] = hist.get("refused", 0) + sum(1 for l in iv if l == "refused")
